@@ -556,9 +556,11 @@ static Op gen_line(sim_rng &r, unsigned longw) {
     else if (c < 93) { op.s = rnd_utf8(r, 1 + sim_below(&r, 40)) + "@" + rnd_utf8(r, 1 + sim_below(&r, 20)) + ".ru"; }
     else if (c < 100) { op.s = rnd_ascii(r, 1 + sim_below(&r, 20)) + "\x7f" + rnd_ascii(r, sim_below(&r, 5)); }
     else {
-        static const size_t L[] = { 119, 120, 121, 255, 256, 1023, 1024, 1025, 2040, 2046, 2047, 2048, 2049, 2050, 3000, 4095, 4096, 4097, 8191 };
-        size_t n = L[sim_below(&r, 19)];
-        if (sim_below(&r, 4) == 0) n = sim_below(&r, 8192);
+        // lengths clustered around power-of-two buffer sizes (the line, or the line plus its terminator, just below / at / above)
+        static const size_t B[] = { 120, 128, 256, 512, 1024, 2048, 4096, 8192 };
+        size_t n = B[sim_below(&r, 8)] + sim_below(&r, 8) - 5;
+        if (sim_below(&r, 4) == 0) n = sim_below(&r, 8200);
+        if (sim_below(&r, 12) == 0) n = 2 * 4095 - 3 + sim_below(&r, 6);
         unsigned kind = (unsigned)sim_below(&r, 4);
         if (kind == 0) op.s = rnd_ascii(r, n);
         else if (kind == 1) op.s = rnd_utf8(r, n);
